@@ -342,7 +342,7 @@ InitGiven == /\ \E i \in 1..Len(Given) : fns = Given[i]
 
 Walk0 == UNCHANGED <<evs, res, pos, stk, ska, susp, started, ended, bad>>
 
-Add(kd, k, x, z, v) ==
+Add(kd, k, x, z, v, A) ==
   LET rq == Head(todo)
       b  == Skel(k, Atom(x), Atom(z), Atom(v))
       u  == Uses(b)
@@ -352,7 +352,9 @@ Add(kd, k, x, z, v) ==
       ng == IF "g" \in u THEN n + Cardinality(u) ELSE 0
       rd == [cls |-> "d", d |-> rq.d + 1]
       rg == [cls |-> "g", d |-> rq.d + 1]
-  IN /\ (Holes(k) < 3 => v = "ps") /\ (Holes(k) < 2 => z = "ps")      \* unused holes are fixed
+  IN /\ x \in A
+     /\ IF Holes(k) >= 2 THEN z \in A ELSE z = "ps"                  \* unused holes are fixed
+     /\ IF Holes(k) >= 3 THEN v \in A ELSE v = "ps"
      /\ Valid(b, kd = "gen")
      /\ n + Cardinality(u) <= MaxFn
      /\ (u # {} => rq.d < MaxDepth)
@@ -362,11 +364,11 @@ Add(kd, k, x, z, v) ==
      /\ phase' = phase /\ Walk0
 
 AddRoot == /\ phase = "build" /\ todo # <<>> /\ fns = <<>>
-           /\ \E kd \in RootKinds, k \in RootSkel, x \in RootAtoms, z \in RootAtoms, v \in RootAtoms : Add(kd, k, x, z, v)
+           /\ \E kd \in RootKinds, k \in RootSkel, x \in RootAtoms, z \in AllAtoms, v \in AllAtoms : Add(kd, k, x, z, v, RootAtoms)
 AddDef  == /\ phase = "build" /\ todo # <<>> /\ fns # <<>> /\ Head(todo).cls = "d"
-           /\ \E kd \in CalleeKinds, k \in SubSkel, x \in SubAtomsD, z \in SubAtomsD, v \in SubAtomsD : Add(kd, k, x, z, v)
+           /\ \E kd \in CalleeKinds, k \in SubSkel, x \in SubAtomsD, z \in AllAtoms, v \in AllAtoms : Add(kd, k, x, z, v, SubAtomsD)
 AddGen  == /\ phase = "build" /\ todo # <<>> /\ fns # <<>> /\ Head(todo).cls = "g"
-           /\ \E k \in SubSkel, x \in SubAtomsG, z \in SubAtomsG, v \in SubAtomsG : Add("gen", k, x, z, v)
+           /\ \E k \in SubSkel, x \in SubAtomsG, z \in AllAtoms, v \in AllAtoms : Add("gen", k, x, z, v, SubAtomsG)
 
 RunProg ==
   /\ phase = "build" /\ todo = <<>>
